@@ -145,12 +145,18 @@ def probe_case(rng, kind, ivcls):
         params["dsp.1"] = {"value": 0.02}
     datasets = []
     id0 = 0
+    # datasets of an unlinked group need not share their global axis: in half of those cases the second one starts one
+    # point later and reaches one point further (the same interval then covers other index ranges per dataset)
+    own_axis = bool(nds == 2 and not linked and len(gaxis) >= 3 and rng.integers(2))
     for d in range(nds):
         nt = int(rng.integers(9, 13))
         t = np.round(np.sort(rng.choice(np.arange(0, 48), nt, replace=False)) * 0.25, 3).tolist()
-        datasets.append({"label": f"ds{d + 1}", "group": "g1", "t": t, "g": list(gaxis), "layout": "mg", "megacomplex": ["m1"],
+        g_d = list(gaxis)
+        if own_axis and d == 1:
+            g_d = list(gaxis[1:]) + [float(np.round(gaxis[-1] + 0.7, 3))]
+        datasets.append({"label": f"ds{d + 1}", "group": "g1", "t": t, "g": g_d, "layout": "mg", "megacomplex": ["m1"],
                          "dseed": int(rng.integers(2**31)), "id0": id0, "weight": None, "scale": None, "mc_scale": None})
-        id0 += nt * len(gaxis)
+        id0 += nt * len(g_d)
     target_missing = False
     if nds == 2 and kind in ("zero", "only") and rng.integers(3) == 0:
         # the FIRST dataset of the group does not have the constrained clp at all (label sets differ per dataset);
@@ -161,7 +167,7 @@ def probe_case(rng, kind, ivcls):
     case = {"datasets": datasets, "megacomplexes": mcs, "global_megacomplexes": {},
             "groups": {"g1": {"link_clp": linked, "residual_function": "variable_projection"}}, "parameters": params,
             "link_tolerance": 0.0, "link_method": "nearest", "constraints": [], "relations": [], "penalties": [], "weights": [],
-            "features": {"kind": kind, "ivcls": ivcls, "axis": axcls, "linked": linked, "idxdep": idxdep, "n_axis": len(gaxis), "target_missing_in_first": target_missing}}
+            "features": {"kind": kind, "ivcls": ivcls, "axis": axcls, "linked": linked, "idxdep": idxdep, "n_axis": len(gaxis), "target_missing_in_first": target_missing, "own_axis_per_dataset": own_axis}}
     axis_for_iv = gaxis
     if kind == "weight_model":
         axis_for_iv = datasets[0]["t"]
@@ -267,7 +273,7 @@ def observe(case, kind, prepare=None):
         ap = [float(x) for grp in result.additional_penalty for x in np.atleast_1d(grp)]
         linked = case["groups"]["g1"]["link_clp"]
         labels = [d["label"] for d in case["datasets"]]
-        n = len(case["datasets"][0]["g"])
+        n = max(len(d["g"]) for d in case["datasets"])
         codes = [x / case["penalties"][0]["weight"] for x in ap]
         dec = []
         for c in codes:
